@@ -492,7 +492,10 @@ func (c *Ctx) ruleR01f(rule string) {
 							}
 						}
 					}
+					lv := l
+					foldParserCount = &lv
 					got := foldFuncEnv(lc, []bval{{known: true, i: n}}, capt, 0)
+					foldParserCount = nil
 					if !got.known || !got.isB {
 						undec = true
 						continue
